@@ -751,6 +751,42 @@ Restart(ord, T, S, pick) ==
     /\ UNCHANGED <<files, cache>>
 
 -----------------------------------------------------------------------------
+(* ---------- the event stream (Manager.Listen, manager.go event()) ----------
+   Every closure of the service loop tells the listeners what it did.  A listener that is ready gets the event at
+   once; for a busy one event() starts a goroutine per event, so the order in which the events of one closure (or of
+   closures in quick succession) arrive is not defined: a step announces a *set* of events.
+   The events carry a summary of the state after the step (the web client updates its tables from it):
+     pcapArrived                                                     ImportPcaps
+     pcapProcessed, indexesMerged : a = queued captures, b = streams numbered so far, c = served index files
+     tagAdded    n : a = matching, b = uncertain                     AddTag, UpdateTag (new name)
+     tagDeleted  n                                                   DelTag, UpdateTag (old name)
+     converterCompleted n : a = streams with cached output           completion of a converter job (per converter still
+                                                                     installed), on-demand conversion that stored output
+     configUpdated, webhooksUpdated (l = the list), pcapOverIPEndpointsUpdated (a = number of endpoints)
+   tagUpdated (a ticker collects the names of changed tags) and the converter directory events (file system watcher)
+   are not tied to a step and are left out.
+   Announced(kind, ok, name, new, c) is an action-level expression: it reads the state before and after the step. *)
+Evt(t, n, a, b, c, lst) == [t |-> t, n |-> n, a |-> a, b |-> b, c |-> c, l |-> lst]
+EvtStats(t)      == Evt(t, "", Len(queue'), nextID', Len(indexes'), <<>>)
+EvtTagAdded(n)   == Evt("tagAdded", n, Cardinality(tags'[n].M), Cardinality(tags'[n].U), 0, <<>>)
+EvtTagDeleted(n) == Evt("tagDeleted", n, 0, 0, 0, <<>>)
+EvtConv(c)       == Evt("converterCompleted", c, Cardinality(cache'[c]), 0, 0, <<>>)
+Announced(kind, ok, name, new, c) ==
+    IF ~ok THEN {}                                      \* a rejected call announces nothing
+    ELSE CASE kind = "ApiImport"   -> {Evt("pcapArrived", "", 0, 0, 0, <<>>)}
+           [] kind = "ImportDone"  -> {EvtStats("pcapProcessed")}
+           [] kind = "MergeDone"   -> {EvtStats("indexesMerged")}                      \* (also when the merge had failed)
+           [] kind = "AddTag"      -> {EvtTagAdded(name)}
+           [] kind = "DelTag"      -> {EvtTagDeleted(name)}
+           [] kind = "UpdName"     -> IF new = "" \/ new = name THEN {} ELSE {EvtTagDeleted(name), EvtTagAdded(new)}
+           [] kind = "ConvDone"    -> {EvtConv(x) : x \in DOMAIN jobs.conv.ids \cap DOMAIN cache'}
+           [] kind = "ViewConvert" -> IF c \in DOMAIN cache /\ c \in DOMAIN cache' /\ cache'[c] # cache[c] THEN {EvtConv(c)} ELSE {}
+           [] kind = "SetConfig"   -> {Evt("configUpdated", "", 0, 0, 0, <<>>)}
+           [] kind \in {"AddHook", "DelHook"} -> {Evt("webhooksUpdated", "", 0, 0, 0, settings'.hooks)}
+           [] kind \in {"AddEndpoint", "DelEndpoint"} -> {Evt("pcapOverIPEndpointsUpdated", "", Len(settings'.eps), 0, 0, <<>>)}
+           [] OTHER -> {}
+
+-----------------------------------------------------------------------------
 (* ---------- properties ---------- *)
 \* from-scratch truth of every tag on the current data (bottom-up through references)
 RECURSIVE TruthOf(_, _, _)
